@@ -470,6 +470,10 @@ def seq_conv(ell, A):
         F.check("composed-vs-direct", *cmp_sph(Hd, H2))
         F.check("roundtrip-geodetic-geocentric", *cmp_sph(Hd, (h, lat, lon)),
                 classify=_cls(E, X, Hd, want=(h, lat, lon)))
+        # the spherical conversion with the arguments in their original (possibly different) shapes;
+        # values are judged by the installed post-condition, exceptions by call()
+        # (each output only has to broadcast against the others: z = r sin(lat) does not depend on lon)
+        Xs = call(F, "geocentric2cart", np.asarray(E[0]) + h, lat, lon)
         Gdd = call(F, "geodetic2geocentric", *Hd, *Ea)
         F.check("roundtrip-geodetic-geocentric", *cmp_sph(Gdd, G), classify=_cls(E, X, Hd, want=(h, lat, lon)))
     except Abort:
